@@ -206,7 +206,7 @@ class Ctx:
                 tail.append(line)
                 if len(tail) > 400:
                     del tail[:200]
-                if line.startswith("Error:") or "Parse Error" in line or "Semantic error" in line or "*** Errors" in line:
+                if line.startswith("Error:") or "Parse Error" in line or "Could not parse" in line or "Semantic error" in line or "*** Errors" in line:
                     r.errors.append(line.strip())
                     m = re.match(r"Error: Invariant (\S+) is violated", line)
                     if m:
@@ -443,6 +443,12 @@ def record_and_validate(ctx, world, module, cfg, n, shards=8, name=None, timeout
         if not done or done[-1]["in"]["n"] != len(chunk):
             raise Infra("trace shard %d of %s was not consumed completely (%s)" % (i, name, done[-1:] if done else "no done record"))
         for o in objs:
+            if o.get("k") == "drift":
+                ctx.drift += 1
+                if ctx.drift <= 3:
+                    ev = json.loads(chunk[o["in"]["l"] - 1])
+                    log("[DRIFT] %s event %s: recorded %s, protocol-level model expects %s" % (
+                        name, json.dumps(ev["in"])[:200], json.dumps(ev.get("drift"))[:200], json.dumps(o.get("exp"))[:200]))
             if o.get("k") != "bad":
                 continue
             ev = json.loads(chunk[o["in"]["l"] - 1])
